@@ -25,6 +25,8 @@ def check_C15(tier, seed):
     for v in props.sample(vecs, n_vec, r):
         scripts.append(scen_c15.migration_script(r, len(scripts), [r.choice(["port", "ip", "spoof"]), r.choice(["wait", "back", "spoof"])], fate_vec=v))
     scripts += [scen_c15.migration_random(r, len(scripts) + i) for i in range(n_rand)]
+    # a client that only acknowledges: its ACK-only packets from the new address are what the server follows
+    scripts += [scen_c15.migration_ackonly(r, len(scripts) + i) for i in range(80 if tier == "quick" else 800)]
     mcs = [("Migration.tla", "MC_Migration.cfg"), ("CidFlow.tla", "MC_CidFlow.cfg")]
     return props.generic("C15", tier, seed, mcs, scripts, VALS, ASSUME,
                          extra_cov={"operation_sequences_enumerated_by_tlc": len(seqs), "fate_vectors_enumerated_by_tlc": len(vecs),
